@@ -1301,7 +1301,7 @@ Proof.
   - eapply Hok. reflexivity.
   - reflexivity.
   - unfold can_write. rewrite Hi. apply orb_true_iff. left. apply orb_true_r.
-  - destruct (input c) as [|[| |] ?]; rewrite ?Hi; reflexivity.
+  - destruct (after_plain (input c)) as [|[| |] ?]; rewrite ?Hi; reflexivity.
 Qed.
 
 (* an untracked connection (late untrack) has only OnClose / Done left *)
